@@ -1,6 +1,8 @@
 import Pymc.Proofs.C01Examples
 import Pymc.Proofs.ServerAnswersCall
 import Pymc.Proofs.PooledCallExamples
+import Pymc.Proofs.HashCallExamples
+import Pymc.Proofs.HashCallManyExamples
 /-!
 # C01 — no reply is ever read by the wrong call
 
@@ -36,7 +38,12 @@ The argument is the invariant *at a call boundary an open socket has nothing unr
 9. the same for `PooledClient`: model `Pymc/Model/PooledCall.lean`, in which every public call of the wrapper is the pool
    bracket (`get`, then `release` or `destroy`) around a real `Client.call` on the checked-out inner client.  The
    invariant becomes *every idle pooled client with an open socket has nothing unread in its pipe*
-   (`C01_pooled_sequence_clean`, `C01_pooled_own_bytes_only`, and the `…_faults` variants).
+   (`C01_pooled_sequence_clean`, `C01_pooled_own_bytes_only`, and the `…_faults` variants);
+10. and for `HashClient` (`use_pooling=False`, the single-key operations): model `Pymc/Model/HashCall.lean`, in which every
+   contact of the failover code with a server is a real `Client.call` on the client object registered for that server.
+   The invariant becomes *every client object registered in `self.clients` with an open socket has nothing unread in its
+   pipe* (`C01_hash_sequence_clean`, `C01_hash_own_bytes_only`, and the `…_faults` variants); with `get_many` /
+   `gets_many` — several servers contacted by one public call — in `C01_hash_many_*` (model `Pymc/Model/HashCallMany.lean`).
 
 No bound on lengths, number of keys or chunking anywhere.
 -/
@@ -841,5 +848,283 @@ example :
   ⟨PooledCallExamples.faultCalls_ff, PooledCallExamples.demo_faults.2.2.1, PooledCallExamples.demo_faults.2.1⟩
 
 end pooled
+
+/-! ## 10. `HashClient`: failover bookkeeping around every call
+
+Model: `Pymc/Model/HashCall.lean`.  A history is a list of single-key calls `(routing key, operation, script, time)`
+— the operations `HashClient` runs through `_run_cmd`: `set get gets gat gats add replace append prepend cas delete
+incr decr touch`; `runH ccfg fcfg route (init servers t0) 0 calls` runs it on a fresh `HashClient` (no pooling)
+over `servers` whose inner clients are configured by `ccfg`, whose failover parameters (`retry_attempts`,
+`retry_timeout`, `dead_timeout`, `ignore_exc`) are `fcfg` and whose hasher is `route` (any function — no assumption
+on it here); it returns the final state and one observation per call.  `ob.step`, when the failover code invoked a
+client object, is the inner `Client.call` (with `ignore_exc=False`) on that object: `recv()` results tagged with the
+number of the `HashClient` call during which they arrive, exactly one step of `Framing.runTaggedFrom`.  Which
+server's client object serves a call, whether it is contacted at all, and when it is replaced by a fresh object
+(`add_server` when a dead server is brought back) is decided by the failover code — see C13. -/
+section hash
+open HashCall
+
+variable {Key : Type}
+
+/-- C01 (`HashClient`, the step is the inner call): the step observed for call `i` is `Client.call` for the `i`-th
+operation of the history on some client object (socket state `so`, pipe `left`), with that call's `recv()` results
+tagged `i`; and the method's result is the inner result, or `default_val` / the inner exception as `ignore_exc` and
+the exception class decide (`HashCall.ResOfStep`). -/
+theorem C01_hash_step_is_client_call (ccfg : Cfg) (fcfg : Failover.Cfg) (route : List Nat → Key → Option Nat)
+    (servers : List Nat) (t0 : Nat) (calls : List (HCall Key)) :
+    ∀ (i : Nat) (ob : HObs), (runH ccfg fcfg route (init servers t0) 0 calls).2[i]? = some ob →
+      ∃ hc, calls[i]? = some hc ∧
+        ∀ st, ob.step = some st →
+          (∃ so left,
+            st.idx = i ∧ st.avail = available so left (hc.sc.evs.map fun e => (i, e)) ∧
+            st.out = Client.call ccfg false so hc.call { hc.sc with evs := st.avail.map (·.2) }) ∧
+          ResOfStep fcfg ob.res st := by
+  intro i ob hi
+  obtain ⟨hc, hcall, h⟩ := runH_steps ccfg fcfg route (init servers t0) 0 calls i ob hi
+  refine ⟨hc, hcall, fun st hst => ?_⟩
+  obtain ⟨⟨so, left, hs⟩, hres⟩ := h st hst
+  rw [Nat.zero_add] at hs
+  subst hs
+  exact ⟨⟨so, left, rfl, rfl, rfl⟩, hres⟩
+
+/-- C01 (`HashClient`, sequences): run any history of single-key calls on a fresh `HashClient`.  If what arrives during
+each call is well-framed for that call, then after every call (`calls.take n` = the first `n` calls) every client
+object registered in `self.clients` that has an open socket has no byte unread in its pipe — whatever the failover
+code did in between (servers marked, retried, evicted, keys rerouted, servers brought back with a fresh client
+object, exceptions swallowed under `ignore_exc`). -/
+theorem C01_hash_sequence_clean (ccfg : Cfg) (fcfg : Failover.Cfg) (route : List Nat → Key → Option Nat)
+    (servers : List Nat) (t0 : Nat) (calls : List (HCall Key))
+    (hwf : ∀ hc ∈ calls, WellFramed ccfg hc.call hc.sc.evs) (n : Nat) :
+    ∀ x ∈ (runH ccfg fcfg route (init servers t0) 0 (calls.take n)).1.clients, x.2.sockOpen = true →
+      joinData (x.2.pipe.map (·.2)) = [] ∧ clean (x.2.pipe.map (·.2)) := by
+  intro x hx hopen
+  have h := (runH_clean ccfg fcfg route (init servers t0) 0 (calls.take n) (pipesClean_init servers t0)
+    (fun hc h => hwf hc (List.mem_of_mem_take h))).1 x hx hopen
+  have hd : Drained (x.2.pipe.map (·.2)) := by
+    rw [drained_iff_all_eintr]
+    intro e he
+    obtain ⟨te, hte, rfl⟩ := List.mem_map.mp he
+    exact h te hte
+  exact hd
+
+/-- the six-call history `HashCallExamples.demoCalls` satisfies the hypothesis, and its run shows the cases the theorem
+covers: server 0 serves the key, then fails (marked, retried, evicted with a final probe), the key is rerouted to server
+1, and server 0 comes back with a fresh client object (number 2) on a new connection; in the end both registered
+client objects have an open socket and an empty pipe -/
+example :
+    (∀ hc ∈ HashCallExamples.demoCalls, WellFramed {} hc.call hc.sc.evs) ∧
+    HashCallExamples.obsSummary (runH {} HashCallExamples.cfgStrict Failover.prefRoute (init [0, 1] 0) 0 HashCallExamples.demoCalls) =
+      [(.value (.bytes [120]), some 0, some 0, [0]),
+       (.raised 0 (.sock 32), some 0, some 0, []),
+       (.raised 0 (.sock 61), some 0, some 0, []),
+       (.raised 0 (.sock 61), some 0, some 0, []),
+       (.value .dflt, some 1, some 1, [4]),
+       (.value (.bytes [120]), some 0, some 2, [5])] ∧
+    HashCallExamples.stateSummary (runH {} HashCallExamples.cfgStrict Failover.prefRoute (init [0, 1] 0) 0 HashCallExamples.demoCalls) =
+      ({ nodes := [1, 0], failed := [], dead := [], lastDeadCheck := 12 }, [(0, 2, true, 0), (1, 1, true, 0)]) :=
+  ⟨HashCallExamples.demoCalls_wf, HashCallExamples.demo_strict.1, HashCallExamples.demo_strict.2.1⟩
+
+/-- C01 (`HashClient`, own bytes only): under the same hypothesis, everything `HashClient` call number `i` can see on the
+socket of the client object it invokes — a fortiori everything it consumes — carries tag `i`, except possibly
+interrupted `recv()` attempts (`eintr`), which carry no bytes (see `C01_own_bytes_only_eintr_counterexample`).  So no
+`HashClient` call ever reads a byte that answers an earlier call, whichever server it is routed to. -/
+theorem C01_hash_own_bytes_only (ccfg : Cfg) (fcfg : Failover.Cfg) (route : List Nat → Key → Option Nat)
+    (servers : List Nat) (t0 : Nat) (calls : List (HCall Key))
+    (hwf : ∀ hc ∈ calls, WellFramed ccfg hc.call hc.sc.evs) :
+    ∀ (i : Nat) (ob : HObs), (runH ccfg fcfg route (init servers t0) 0 calls).2[i]? = some ob →
+      ∀ st, ob.step = some st →
+        st.idx = i ∧
+        st.consumed ++ st.leftover = st.avail ∧
+        st.leftover.map (·.2) = st.out.unread ∧
+        (∀ te ∈ st.avail, te.1 = i ∨ te.2 = .eintr) ∧
+        (∀ te ∈ st.consumed, te.1 = i ∨ te.2 = .eintr) := by
+  intro i ob hi st hst
+  obtain ⟨hidx, h⟩ := (runH_clean ccfg fcfg route (init servers t0) 0 calls (pipesClean_init servers t0) hwf).2 i ob hi st hst
+  rw [Nat.zero_add] at hidx
+  have hown : ∀ te ∈ st.avail, te.1 = i ∨ te.2 = .eintr := fun te hte => hidx ▸ h.own te hte
+  refine ⟨hidx, h.split, h.left, hown, fun te hte => hown te ?_⟩
+  rw [← h.split]; exact List.mem_append_left _ hte
+
+/-- C01 (`HashClient`, no foreign bytes): every `recv()` result that carries data and is consumed by `HashClient` call
+`i` carries tag `i`. -/
+theorem C01_hash_no_foreign_bytes (ccfg : Cfg) (fcfg : Failover.Cfg) (route : List Nat → Key → Option Nat)
+    (servers : List Nat) (t0 : Nat) (calls : List (HCall Key))
+    (hwf : ∀ hc ∈ calls, WellFramed ccfg hc.call hc.sc.evs) :
+    ∀ (i : Nat) (ob : HObs), (runH ccfg fcfg route (init servers t0) 0 calls).2[i]? = some ob →
+      ∀ st, ob.step = some st → ∀ te ∈ st.consumed, ∀ b, te.2 = .data b → te.1 = i := by
+  intro i ob hi st hst te hte b hb
+  rcases (C01_hash_own_bytes_only ccfg fcfg route servers t0 calls hwf i ob hi st hst).2.2.2.2 te hte with h | h
+  · exact h
+  · rw [hb] at h; cases h
+
+/-- C01 (`HashClient`, sequences, broken connections): if what arrives during each call is `FaultFramed` for that call
+(the owed units, or a strict prefix of them cut at any byte by end-of-stream or an exception), then after every call
+no byte is readable, before a fault, from the pipe of any registered client object with an open socket. -/
+theorem C01_hash_sequence_clean_faults (ccfg : Cfg) (fcfg : Failover.Cfg) (route : List Nat → Key → Option Nat)
+    (servers : List Nat) (t0 : Nat) (calls : List (HCall Key))
+    (hff : ∀ hc ∈ calls, FaultFramed ccfg hc.call hc.sc.evs) (n : Nat) :
+    ∀ x ∈ (runH ccfg fcfg route (init servers t0) 0 (calls.take n)).1.clients, x.2.sockOpen = true →
+      quiet (x.2.pipe.map (·.2)) :=
+  (runH_quiet ccfg fcfg route (init servers t0) 0 (calls.take n) (pipesQuiet_init servers t0)
+    (fun hc h => hff hc (List.mem_of_mem_take h))).1
+
+/-- C01 (`HashClient`, own bytes only, broken connections): everything `HashClient` call `i` can possibly receive — the
+pipe content of the client object it invokes, up to the first fault — carries tag `i` or is an interrupted attempt
+without bytes; and a call whose client object keeps its socket has consumed only such events. -/
+theorem C01_hash_own_bytes_only_faults (ccfg : Cfg) (fcfg : Failover.Cfg) (route : List Nat → Key → Option Nat)
+    (servers : List Nat) (t0 : Nat) (calls : List (HCall Key))
+    (hff : ∀ hc ∈ calls, FaultFramed ccfg hc.call hc.sc.evs) :
+    ∀ (i : Nat) (ob : HObs), (runH ccfg fcfg route (init servers t0) 0 calls).2[i]? = some ob →
+      ∀ st, ob.step = some st →
+        st.idx = i ∧
+        st.consumed ++ st.leftover = st.avail ∧
+        st.leftover.map (·.2) = st.out.unread ∧
+        (∀ te ∈ readable st.avail, te.1 = i ∨ te.2 = .eintr) ∧
+        (st.out.sockOpen = true → ∀ te ∈ st.consumed, te.1 = i ∨ te.2 = .eintr) := by
+  intro i ob hi st hst
+  obtain ⟨hidx, h⟩ := (runH_quiet ccfg fcfg route (init servers t0) 0 calls (pipesQuiet_init servers t0) hff).2 i ob hi st hst
+  rw [Nat.zero_add] at hidx
+  have hown : ∀ te ∈ readable st.avail, te.1 = i ∨ te.2 = .eintr := fun te hte => hidx ▸ h.own te hte
+  exact ⟨hidx, h.split, h.left, hown, fun ho te hte => hown te (h.taken ho te hte)⟩
+
+/-- a history over a breaking connection (`HashCallExamples.faultCalls`, `ignore_exc=True`): a reply cut by a timeout with
+junk arriving later (the call also takes the interrupted `recv()` left by call 0: tags `[0, 1, 1, 1]`), a
+`BaseException` while connecting (escapes although `ignore_exc` is set, marks nothing), a half line followed by
+end-of-stream (`MemcacheUnexpectedCloseError`: swallowed, marks nothing), refused connections (marked, evicted), an
+illegal key (rejected before any bookkeeping); every script is `FaultFramed`; call 7, served by the fresh client
+object 2 of the revived server 0, never sees the junk of call 1 -/
+example :
+    (∀ hc ∈ HashCallExamples.faultCalls, FaultFramed {} hc.call hc.sc.evs) ∧
+    HashCallExamples.obsSummary (runH {} HashCallExamples.cfgIgnore Failover.prefRoute (init [0, 1] 0) 0 HashCallExamples.faultCalls) =
+      [(.value (.bytes [120]), some 0, some 0, [0]),
+       (.default, some 0, some 0, [0, 1, 1, 1]),
+       (.raised 0 (.sock 130), some 0, some 0, []),
+       (.default, some 0, some 0, [3, 3]),
+       (.default, some 0, some 0, []),
+       (.default, some 0, some 0, []),
+       (.illegalKey, none, none, []),
+       (.value (.bytes [120]), some 0, some 2, [7])] ∧
+    HashCallExamples.stateSummary (runH {} HashCallExamples.cfgIgnore Failover.prefRoute (init [0, 1] 0) 0 HashCallExamples.faultCalls) =
+      ({ nodes := [1, 0], failed := [], dead := [], lastDeadCheck := 20 }, [(0, 2, true, 0), (1, 1, false, 0)]) :=
+  ⟨HashCallExamples.faultCalls_ff, HashCallExamples.demo_faults.1, HashCallExamples.demo_faults.2.1⟩
+
+end hash
+
+/-! ## 11. `HashClient`: `get_many` / `gets_many` mixed with the single-key operations
+
+Model: `Pymc/Model/HashCallMany.lean`.  A public call (`MCall`) is a single-key operation as in section 10 or a
+`get_many` / `gets_many`: every key with its routing key, and one script per server (`scripts s` = what the connection
+of server `s` does during the call).  `runM` runs a history; the observation of a call lists its batches in order, each
+with the inner `Client.call (.getMany batch)` made on the client object registered for that server (`ob.steps` = the
+inner calls of the public call, all tagged with its number).  The framing hypothesis for `get_many`
+(`MOp.WellFramed`) is about the scripts alone: every server's script delivers exactly one fetch reply — which keys
+are sent to which server is decided by the failover code at run time, and a batch of legal keys is owed one fetch
+reply whatever it holds (`HashCall.owed_batchCall`). -/
+section hashmany
+open HashCall
+
+variable {RK : Type}
+
+/-- C01 (`HashClient` with `get_many`, sequences): run any history of single-key and `get_many` / `gets_many` calls on a
+fresh `HashClient`.  If what arrives on every server's connection during each call is well-framed, then after every
+call every client object registered in `self.clients` that has an open socket has no byte unread in its pipe. -/
+theorem C01_hash_many_sequence_clean (ccfg : Cfg) (fcfg : Failover.Cfg) (route : List Nat → RK → Option Nat)
+    (servers : List Nat) (t0 : Nat) (calls : List (MCall RK))
+    (hwf : ∀ mc ∈ calls, mc.op.WellFramed ccfg) (n : Nat) :
+    ∀ x ∈ (runM ccfg fcfg route (init servers t0) 0 (calls.take n)).1.clients, x.2.sockOpen = true →
+      joinData (x.2.pipe.map (·.2)) = [] ∧ clean (x.2.pipe.map (·.2)) := by
+  intro x hx hopen
+  have h := (runM_clean ccfg fcfg route (init servers t0) 0 (calls.take n) (pipesClean_init servers t0)
+    (fun mc h => hwf mc (List.mem_of_mem_take h))).1 x hx hopen
+  have hd : Drained (x.2.pipe.map (·.2)) := by
+    rw [drained_iff_all_eintr]
+    intro e he
+    obtain ⟨te, hte, rfl⟩ := List.mem_map.mp he
+    exact h te hte
+  exact hd
+
+/-- C01 (`HashClient` with `get_many`, own bytes only): under the same hypothesis, for every inner call made during public
+call number `i` — one per contacted server for `get_many` — everything it can see on the socket of the client object
+it runs on, a fortiori everything it consumes, carries tag `i`, except possibly interrupted `recv()` attempts. -/
+theorem C01_hash_many_own_bytes_only (ccfg : Cfg) (fcfg : Failover.Cfg) (route : List Nat → RK → Option Nat)
+    (servers : List Nat) (t0 : Nat) (calls : List (MCall RK))
+    (hwf : ∀ mc ∈ calls, mc.op.WellFramed ccfg) :
+    ∀ (i : Nat) (ob : MObs), (runM ccfg fcfg route (init servers t0) 0 calls).2[i]? = some ob →
+      ∀ st ∈ ob.steps,
+        st.idx = i ∧
+        st.consumed ++ st.leftover = st.avail ∧
+        st.leftover.map (·.2) = st.out.unread ∧
+        (∀ te ∈ st.avail, te.1 = i ∨ te.2 = .eintr) ∧
+        (∀ te ∈ st.consumed, te.1 = i ∨ te.2 = .eintr) := by
+  intro i ob hi st hst
+  obtain ⟨hidx, h⟩ := (runM_clean ccfg fcfg route (init servers t0) 0 calls (pipesClean_init servers t0) hwf).2 i ob hi st hst
+  rw [Nat.zero_add] at hidx
+  have hown : ∀ te ∈ st.avail, te.1 = i ∨ te.2 = .eintr := fun te hte => hidx ▸ h.own te hte
+  refine ⟨hidx, h.split, h.left, hown, fun te hte => hown te ?_⟩
+  rw [← h.split]; exact List.mem_append_left _ hte
+
+/-- the six-call history `HashCallExamples.manyCalls` (`ignore_exc=True`) satisfies the hypothesis; its run shows a
+`get_many` split over two servers, a failing batch swallowed while the other batch is still sent, eviction with the
+final probe inside a `get_many`, both keys rerouted into one batch, and the revived server served through a fresh
+client object; every inner call consumes only `recv()` results of its own public call -/
+example :
+    (∀ mc ∈ HashCallExamples.manyCalls, mc.op.WellFramed {}) ∧
+    HashCallExamples.manySummary (runM {} HashCallExamples.cfgIgnore Failover.prefRoute (init [0, 1] 0) 0 HashCallExamples.manyCalls) =
+      [(.value (.dict [(.bytes [107], [120])]), [(0, some 0, true), (1, some 1, true)]),
+       (.value (.dict []), [(0, some 0, false), (1, some 1, true)]),
+       (.default, [(0, some 0, false)]),
+       (.value (.dict []), [(0, some 0, false), (1, some 1, true)]),
+       (.value (.dict []), [(1, some 1, true)]),
+       (.value (.dict [(.bytes [107], [120])]), [(0, some 2, true), (1, some 1, true)])] ∧
+    HashCallExamples.manyTags (runM {} HashCallExamples.cfgIgnore Failover.prefRoute (init [0, 1] 0) 0 HashCallExamples.manyCalls) =
+      [[[0], [0]], [[], [1]], [[]], [[], [3]], [[4]], [[5], [5]]] ∧
+    HashCallExamples.manyState (runM {} HashCallExamples.cfgIgnore Failover.prefRoute (init [0, 1] 0) 0 HashCallExamples.manyCalls) =
+      ({ nodes := [1, 0], failed := [], dead := [], lastDeadCheck := 12 }, [(0, 2, true, 0), (1, 1, true, 0)]) :=
+  ⟨HashCallExamples.manyCalls_wf, HashCallExamples.demo_many.1, HashCallExamples.demo_many.2.1, HashCallExamples.demo_many.2.2⟩
+
+/-- C01 (`HashClient` with `get_many`, sequences, broken connections): if what arrives on every server's connection
+during each call is fault-framed (`MOp.FaultFramed`: the owed reply, or a strict prefix of it cut at any byte by
+end-of-stream or an exception), then after every call no byte is readable, before a fault, from the pipe of any
+registered client object with an open socket. -/
+theorem C01_hash_many_sequence_clean_faults (ccfg : Cfg) (fcfg : Failover.Cfg) (route : List Nat → RK → Option Nat)
+    (servers : List Nat) (t0 : Nat) (calls : List (MCall RK))
+    (hff : ∀ mc ∈ calls, mc.op.FaultFramed ccfg) (n : Nat) :
+    ∀ x ∈ (runM ccfg fcfg route (init servers t0) 0 (calls.take n)).1.clients, x.2.sockOpen = true →
+      quiet (x.2.pipe.map (·.2)) :=
+  (runM_quiet ccfg fcfg route (init servers t0) 0 (calls.take n) (pipesQuiet_init servers t0)
+    (fun mc h => hff mc (List.mem_of_mem_take h))).1
+
+/-- C01 (`HashClient` with `get_many`, own bytes only, broken connections): everything an inner call of public call `i`
+can possibly receive — the pipe content of its client object up to the first fault — carries tag `i` or is an
+interrupted attempt without bytes; and an inner call whose client object keeps its socket has consumed only such
+events. -/
+theorem C01_hash_many_own_bytes_only_faults (ccfg : Cfg) (fcfg : Failover.Cfg) (route : List Nat → RK → Option Nat)
+    (servers : List Nat) (t0 : Nat) (calls : List (MCall RK))
+    (hff : ∀ mc ∈ calls, mc.op.FaultFramed ccfg) :
+    ∀ (i : Nat) (ob : MObs), (runM ccfg fcfg route (init servers t0) 0 calls).2[i]? = some ob →
+      ∀ st ∈ ob.steps,
+        st.idx = i ∧
+        st.consumed ++ st.leftover = st.avail ∧
+        st.leftover.map (·.2) = st.out.unread ∧
+        (∀ te ∈ readable st.avail, te.1 = i ∨ te.2 = .eintr) ∧
+        (st.out.sockOpen = true → ∀ te ∈ st.consumed, te.1 = i ∨ te.2 = .eintr) := by
+  intro i ob hi st hst
+  obtain ⟨hidx, h⟩ := (runM_quiet ccfg fcfg route (init servers t0) 0 calls (pipesQuiet_init servers t0) hff).2 i ob hi st hst
+  rw [Nat.zero_add] at hidx
+  have hown : ∀ te ∈ readable st.avail, te.1 = i ∨ te.2 = .eintr := fun te hte => hidx ▸ h.own te hte
+  exact ⟨hidx, h.split, h.left, hown, fun ho te hte => hown te (h.taken ho te hte)⟩
+
+/-- C01 (`HashClient`, sections 10 and 11 agree): on a history of single-key calls the general run `runM` is the run
+`runH` of section 10 — same final state, same results, same inner calls. -/
+theorem C01_hash_many_extends_single (ccfg : Cfg) (fcfg : Failover.Cfg) (route : List Nat → RK → Option Nat)
+    (servers : List Nat) (t0 : Nat) (calls : List (HCall RK)) :
+    (runM ccfg fcfg route (init servers t0) 0 (calls.map HCall.toM)).1 = (runH ccfg fcfg route (init servers t0) 0 calls).1 ∧
+    (runM ccfg fcfg route (init servers t0) 0 (calls.map HCall.toM)).2.map (·.res) =
+      (runH ccfg fcfg route (init servers t0) 0 calls).2.map (·.res) ∧
+    (runM ccfg fcfg route (init servers t0) 0 (calls.map HCall.toM)).2.map (·.steps) =
+      (runH ccfg fcfg route (init servers t0) 0 calls).2.map (fun ob => ob.step.toList) :=
+  runM_cmds ccfg fcfg route (init servers t0) 0 calls
+
+end hashmany
 
 end C01
